@@ -309,6 +309,61 @@ def job_transform(job):
         job.errors.append(f"floating-point round-trip lemma: {r}")
 
 
+def replay_comparison(model, filt=False):
+    """Real plot_production_comparison (matplotlib, Agg) on a small production table whose Days are not 0, 1, 2, ...:
+    the three drawn curves against an independent run of the library's forward model on the documented time axis."""
+    import warnings
+    import numpy as np
+    import pandas as pd
+    import matplotlib
+    matplotlib.use("Agg")
+    import matplotlib.pyplot as plt
+    from lmfit import Parameters
+    import bluebonnet.plotting  # noqa: F401  (registers the square-root scale)
+    from bluebonnet.forecast import forecast_pressure as fp
+    from bluebonnet.flow import FlowProperties, SinglePhaseReservoir
+    from bluebonnet.fluids import build_pvt_gas
+    n = 6
+    d0 = [float(model.get(f"day{k}") or 0.0) for k in range(3)]
+    days = np.cumsum([max(d0[0], 15.0)] + [max(abs(d0[1] - d0[0]), 30.0)] * (n - 1))       # an offset start, monthly samples
+    gas = np.array([900.0, 800.0, 0.0, 700.0, 650.0, 600.0])
+    prs = np.array([3000.0, 2800.0, 2700.0, 2500.0, 2300.0, 2200.0])
+    data = pd.DataFrame({"Days": days, "Gas": gas, "Pressure": prs})
+    tau = float(model.get("tau") or 400.0)
+    tau = min(max(tau, 50.0), 5000.0)
+    M, pi = 20000.0, 4500.0
+    gv = {"N2": 0.0, "H2S": 0.0, "CO2": 0.0, "Gas Specific Gravity": 0.65, "Reservoir Temperature (deg F)": 200.0}
+    pvt = build_pvt_gas(gv, "dry gas", 6000)
+    par = Parameters()
+    par.add("tau", value=tau)
+    par.add("M", value=M)
+    par.add("p_initial", value=pi)
+    with warnings.catch_warnings():
+        warnings.simplefilter("ignore")
+        fig, (ax1, ax2) = fp.plot_production_comparison(data, pvt, par, filter_zero_prod_days=filt)
+        kept = data[(data["Gas"] > 0) & data["Pressure"].notna()] if filt else data
+        t = np.arange(len(kept), dtype=float) if filt else kept["Days"].to_numpy(float)
+        pf = kept["Pressure"].to_numpy(float)
+        r = SinglePhaseReservoir(80, pf, pi, FlowProperties(pvt, pi))
+        r.simulate(t / tau, pressure_fracface=pf)
+        rf = np.asarray(r.recovery_factor(), float)
+    want = [(t / tau, rf), (t / tau, np.cumsum(kept["Gas"].to_numpy(float)) / M), (t / tau, pf)]
+    got = [ln for ln in ax1.get_lines()] + [ln for ln in ax2.get_lines()]
+    plt.close(fig)
+    problems = []
+    if len(got) != 3:
+        problems.append(f"{len(got)} curves drawn instead of 3")
+    else:
+        for name, ln, (wx, wy) in zip(("simulated recovery", "cumulative production / M", "frac-face pressure"), got, want):
+            gx, gy = np.asarray(ln.get_xdata(), float), np.asarray(ln.get_ydata(), float)
+            if gx.shape != wx.shape or np.any(np.abs(gx - wx) > 1e-9 * (1 + np.abs(wx))):
+                problems.append(f"{name}: x data {gx.tolist()} vs time/tau {wx.tolist()}")
+            elif gy.shape != wy.shape or np.any(np.abs(gy - wy) > 1e-9 * (1 + np.abs(wy))):
+                problems.append(f"{name}: y data {gy.tolist()} vs {wy.tolist()}")
+    return bool(problems), {"what": f"plot_production_comparison(filter_zero_prod_days={filt}), Days {days.tolist()}: " + ("; ".join(problems[:2]) or "curves carry the data"),
+                            "inputs": {"tau": tau}}
+
+
 def job_comparison(job, filt):
     mod = load_sym("bluebonnet.forecast.forecast_pressure", pd=pd_shim.PD, plt=PltStub, FlowProperties=c18._flow_stub,
                    SinglePhaseReservoir=c18._ResStub, Parameters=c18.ParametersStub, Minimizer=c18.MinimizerStub, **SS.rebind())
@@ -349,7 +404,7 @@ def job_comparison(job, filt):
             bad = [_same(ax1.lines[0]["x"], ts), _same(ax1.lines[0]["y"], rf[0]), _same(ax1.lines[1]["x"], ts), _same(ax1.lines[1]["y"], cum),
                    _same(ax2.lines[0]["x"], ts), _same(ax2.lines[0]["y"], prs)]
         job.prove(f"comparison[filter={filt}]/curves are (t/tau, simulated recovery), (t/tau, cumulative/M), (t/tau, frac-face pressure)[path{k}]",
-                  pr.pc + [T.b_or(*bad) if ok else T.b_const(True)], bound="3 rows, any data")
+                  pr.pc + [T.b_or(*bad) if ok else T.b_const(True)], bound="3 rows, any data", replay=(replay_comparison, {"filt": filt}))
         job.prove(f"comparison[filter={filt}]/reach[path{k}]", pr.pc, expect="sat")
 
 
